@@ -492,6 +492,13 @@ class _Eval:
                 cur = env.get(p[0])
                 if cur is not None and cur[0] == "MR":
                     return cur           # reborrow of a &mut local
+            if rv.get("mut") and p[1] and p[1][0] != "*" and p[0] in env:
+                # a mutable borrow of a PART of a local (`&mut out.digits`, `&mut buf[..]`): writes through it - by a callee
+                # without a summary, or through a reference that callee returns (`split_at_mut`, `iter_mut`) - are not
+                # tracked, so whatever is read from that local afterwards is unknown, not its old value
+                val = self.read_place(p, env, mem)
+                env[p[0]] = ("C", "?partly mutably borrowed local", ())
+                return val
             return self.read_place(p, env, mem)
         if r == "cast":
             a = self.operand(rv["a"], env, mem)
